@@ -54,7 +54,7 @@ def strategy_impl(draw, tier):
         def opts(a):
             return by[a]["positions"] if apos[a] == "center" else sorted({apos[a], "center"}, key=by[a]["positions"].index)
 
-        k = draw(st.integers(1, 3))
+        k = draw(st.sampled_from([1, 2, 3, 3, 5]))
         entries = []
         seen = set()
         for _ in range(k):
